@@ -474,7 +474,25 @@ func FPBin(op string, a, b *Term) *Term {
 	return &Term{Op: op, S: SFP, Args: []*Term{a, b}}
 }
 
+func neverNaN(t *Term) bool {
+	switch t.Op {
+	case "to_fp_s", "to_fp_u":
+		return true
+	case "const":
+		return t.F == t.F
+	}
+	return false
+}
+
 func FPCmp(op string, a, b *Term) *Term {
+	if termEq(a, b) && neverNaN(a) {
+		switch op {
+		case "fp.eq", "fp.leq", "fp.geq":
+			return TrueT
+		case "fp.lt", "fp.gt":
+			return FalseT
+		}
+	}
 	if a.IsConst() && b.IsConst() {
 		switch op {
 		case "fp.lt":
@@ -500,6 +518,9 @@ func FPNeg(a *Term) *Term {
 }
 
 func FPPred(op string, a *Term) *Term { // fp.isNaN, fp.isInfinite
+	if a.Op == "to_fp_s" || a.Op == "to_fp_u" {
+		return FalseT // 64-bit integers convert to finite doubles
+	}
 	if a.IsConst() {
 		switch op {
 		case "fp.isNaN":
